@@ -620,7 +620,7 @@ func main() {
 	}
 	tC := time.Since(start) - tA - tB
 
-	rounds, stable := ck.minimise(8)
+	rounds, stable := ck.minimise(24)
 	tMin := time.Since(start) - tA - tB - tC
 
 	fs := ck.failures()
